@@ -512,7 +512,8 @@ func (this *EXECodec) forwardARM(src, dst []byte, codeStart, codeEnd int) (uint,
 	dst[0] = _EXE_ARM64
 	matches = 0
 
-	if codeStart < 0 || codeEnd < codeStart || codeEnd > len(src) {
+	// Branch targets are stored as (address >> 2): the code section must be 4-byte aligned
+	if codeStart < 0 || codeEnd < codeStart || codeEnd > len(src) || codeStart&3 != 0 {
 		return 0, 0, fmt.Errorf("ExeCodec forward failed: Input is not a supported executable format")
 	}
 
